@@ -782,10 +782,41 @@ def nested_lengths(ctx, report):
                 ok, why = False, 'the call is indexed with [0]: the length is dropped'
             elif isinstance(par, ast.Expr):
                 ok, why = False, 'the result is discarded'
+            if not ok and isinstance(n.func.value, (ast.Name, ast.Attribute)):
+                k = model.resolve_expr(f.module, n.func.value)
+                if hasattr(k, 'mro') and takes_whole_input(ctx, k):
+                    ok = True               # nothing can be left over: the dropped length is always the length of the input
+                    report.sample({'rule': 'C03.R6', 'site': f.qualname, 'nested': k.name, 'verdict': 'the nested parser consumes its whole input on every path'})
             if not ok:
                 report.add('C03.R6', '%s@nested[%s]' % (f.construct, ast.unparse(n.func)[:50]),
                            'nested parse %s: %s - a value longer than what the nested parser consumed is accepted and truncated' % (ast.unparse(n)[:60], why))
     report.floor('C03.R6', 8, 'nested parse calls')
+
+
+def takes_whole_input(ctx, k):
+    """does every successful path of K._parse consume the input to its end?  Decided on the layout: the last element is a
+    string without an upper bound on its length, or an alternative on ``unparsed_length`` whose non-empty branch ends that way
+    (and whose other branch is empty: nothing was left). Anything else: not known (False)"""
+    from ..values import show
+    try:
+        cn = ctx.canon.canon(k, 'parse')
+    except Exception:       # pylint: disable=broad-except
+        return False
+
+    def rest(seq):
+        if not seq:
+            return False
+        e = seq[-1]
+        if e.kind == 't:string_by_length':
+            targs = e.extra.get('targs', {})
+            return 'max_length' in targs and targs['max_length'] is None
+        if e.kind == 'alt':
+            cond = getattr(e.op, 'cond', None)
+            text = show(cond) if cond is not None else ''
+            if '.unparsed_length' in text and not any(o in text for o in ('<', '>', '=', '-', '+')):
+                return rest(e.a) and not e.b
+        return False
+    return rest(list(cn.elements))
 
 
 def name_read_after(fnode, name, after):
